@@ -17,7 +17,8 @@ from pbt import gen
 from pbt.harness import Task, ok, violation, discard, xt_call
 
 PID = "C13"
-RULE = ("integrand f(x;a,c) = scale * c_j sin(a_j x + j) (x envelope exp(-x^2/2) for infinite limits), output scalar/vector/tuple; "
+RULE = ("(optionally piecewise through Python control flow on x: on one side of a point inside the interval the integrand does not use c) "
+        "integrand f(x;a,c) = scale * c_j sin(a_j x + j) (x envelope exp(-x^2/2) for infinite limits), output scalar/vector/tuple; "
         "n in 2..12, bck_options absent or n_b != n; limits: python float / tensor / tensor requiring grad / infinite; "
         "function kind from pbt/gen.py (pure, nn.Module, nested, EditableModule incl. containers, siblings) with optional unused "
         "tensor (explicit or object-held) and non-tensor parameter; which leaves require grad; first and second order. "
@@ -35,12 +36,16 @@ TECHNIQUE = "Hypothesis property-based testing: differentiable reference model (
 DT = torch.float64
 
 
-def make_core(out_kind, envelope):
+def make_core(out_kind, envelope, x0=None):
     def core(xs, eff, scale):
         x = torch.as_tensor(xs[0], dtype=DT)
         a, c = eff[0], eff[1]
         j = torch.arange(a.numel(), dtype=DT).reshape(a.shape)
-        y = scale * c * torch.sin(a * x + j)
+        if x0 is not None and bool(x.reshape(-1)[0] < x0):
+            # Python control flow on x: on this side of x0 the integrand does not use `c` at all
+            y = scale * torch.sin(a * x + j)
+        else:
+            y = scale * c * torch.sin(a * x + j)
         if envelope:
             y = y * torch.exp(-0.5 * x * x)
         if out_kind == "scalar":
@@ -77,6 +82,22 @@ def ref_integral(core, eff, scale, n, xlv, xuv, W):
     return tot, mag
 
 
+def ref_outs(core, eff, scale, n, xlv, xuv):
+    """the n-point rule of every output component, as flattened differentiable tensors (limits are plain floats)"""
+    if math.isinf(xlv) or math.isinf(xuv):
+        t, wt = gl_rule(n, math.atan(xlv), math.atan(xuv))
+        xs = torch.tan(t)
+        wt = wt / torch.cos(t) ** 2
+    else:
+        xs, wt = gl_rule(n, xlv, xuv)
+    tot = None
+    for x, w in zip(xs, wt):
+        out = core((x,), eff, scale)
+        outs = [out.reshape(-1)] if isinstance(out, torch.Tensor) else [o.reshape(-1) for o in out]
+        tot = [w * o for o in outs] if tot is None else [t_ + w * o for t_, o in zip(tot, outs)]
+    return tot
+
+
 def contract(out, W):
     if isinstance(out, torch.Tensor):
         return (out.reshape(-1) * W[0]).sum()
@@ -105,7 +126,10 @@ def run_case(case):
         return {"ninf": -inf, "pinf": inf}.get(v, v)
     xlv, xuv = val(case["xl"]), val(case["xu"])
     envelope = math.isinf(xlv) or math.isinf(xuv)
-    core = make_core(out_kind, envelope)
+    x0 = None
+    if case.get("piece") is not None and not envelope:
+        x0 = xlv + case["piece"] * (xuv - xlv)
+    core = make_core(out_kind, envelope, x0)
     values = [0.5 + torch.rand((m,), generator=g, dtype=DT), torch.randn((m,), generator=g, dtype=DT)]
     leaves = gen.make_leaves(values, case["req"], spec["kind"])
     fcn, params, info = gen.build_function(core, leaves, spec)
@@ -125,7 +149,7 @@ def run_case(case):
     wrt = diff_leaves + limits_g + extra
     labels = ["kind=" + spec["kind"], "out=" + out_kind, "xl=" + case["xlform"] + ("_inf" if math.isinf(xlv) else ""),
               "xu=" + case["xuform"] + ("_inf" if math.isinf(xuv) else ""), "bck=" + ("nb" if case["nb"] else "same"),
-              "order=%d" % case["order"], "unused=%s" % spec.get("unused"), "nleafgrad=%d" % len(diff_leaves)]
+              "order=%d" % case["order"], "unused=%s" % spec.get("unused"), "nleafgrad=%d" % len(diff_leaves), "piecewise=%s" % (x0 is not None)]
     if not wrt:
         return discard("nothing_to_differentiate", labels)
 
@@ -139,6 +163,39 @@ def run_case(case):
     second = case["order"] == 2
     if not loss.requires_grad:
         return violation("no_graph", "quad output does not require grad although %d inputs do" % len(wrt), labels)
+    if case.get("loss") == "fit" and second and diff_leaves and not limits_g:
+        # least-squares loss at a perfect fit: the cotangent reaching quad is exactly zero, the first-order gradient vanishes
+        # and the second-order one is J^T diag(w) J (Gauss-Newton term) - a backward that short-cuts a zero cotangent cuts this graph
+        labels = labels + ["loss=fit"]
+        wpos = [w.abs() + 0.5 for w in W]
+        lossf = sum(0.5 * (w * (o.reshape(-1) - o.reshape(-1).detach()) ** 2).sum() for o, w in zip(outs, wpos))
+        g1 = xt_call(torch.autograd.grad, lossf, diff_leaves, create_graph=True, allow_unused=True, _where="backward")
+        Cf = [torch.randn(x.shape, generator=g, dtype=DT) for x in diff_leaves]
+        for gk in g1:
+            if gk is not None and float(gk.detach().abs().max()) != 0.0:
+                return violation("fit_grad1", "gradient of a perfectly fitted least-squares loss is not zero: %r" % gk.detach().reshape(-1).tolist()[:4], labels)
+        terms = [(c * gk).sum() for c, gk in zip(Cf, g1) if gk is not None and gk.requires_grad]
+        eff_r = gen.derive_all(spec["derive"], leaves)
+        R = ref_outs(core, eff_r, float(spec.get("scale", 1.0)), nb, xlv, xuv)
+        lossr = sum(0.5 * (w * (r - r.detach()) ** 2).sum() for r, w in zip(R, wpos))
+        r1 = grads_or_zero(lossr, diff_leaves, create_graph=True)
+        rterms = [(c * rk).sum() for c, rk in zip(Cf, r1) if rk.requires_grad]
+        ref2 = grads_or_zero(sum(rterms), diff_leaves) if rterms else [torch.zeros_like(x) for x in diff_leaves]
+        if not terms:
+            if any(float(r_.abs().max()) > 0 for r_ in ref2):
+                return violation("fit_no_second_graph", "the zero first-order gradient carries no graph, reference Gauss-Newton term is %r" % [r_.reshape(-1).tolist()[:3] for r_ in ref2], labels)
+            return ok(labels, False)
+        got2 = xt_call(torch.autograd.grad, sum(terms), diff_leaves, allow_unused=True, _where="backward2")
+        nz = False
+        for k, (gk, rk, x) in enumerate(zip(got2, ref2, diff_leaves)):
+            gk0 = torch.zeros_like(x) if gk is None else gk
+            sc = float(rk.abs().max())
+            nz = nz or sc > 0
+            err = float((gk0.detach() - rk.detach()).abs().max())
+            if not err <= 1e-9 * (1 + sc) * nb:
+                return violation("fit_grad2", "Gauss-Newton second-order term w.r.t. leaf #%d: got %s ref %s (err %.3e); n=%d nb=%d" % (
+                    k, gk0.reshape(-1).tolist()[:4], rk.reshape(-1).tolist()[:4], err, n, nb), labels)
+        return ok(labels, nontrivial=nz)
     got = xt_call(torch.autograd.grad, loss, wrt, create_graph=second, allow_unused=True, _where='backward')
 
     # ---------------- reference, first order
@@ -237,7 +294,8 @@ def case_st(draw, tier="quick"):
     return {"n": n, "nb": nb, "m": draw(st.integers(1, 3)), "xl": xl, "xu": xu, "xlform": xlform, "xuform": xuform,
             "out": draw(st.sampled_from(["scalar", "vector", "tuple"])), "spec": spec,
             "req": [draw(st.sampled_from([True, True, False])), draw(st.sampled_from([True, True, False]))],
-            "order": draw(st.sampled_from([1, 1, 2])), "seed": draw(st.integers(0, 2 ** 31 - 1))}
+            "order": draw(st.sampled_from([1, 1, 2])), "seed": draw(st.integers(0, 2 ** 31 - 1)),
+            "piece": draw(st.sampled_from([None, None, 0.3, 0.6])), "loss": draw(st.sampled_from(["linear", "linear", "linear", "fit"]))}
 
 
 def tasks(tier):
